@@ -77,7 +77,30 @@ impl<'t, 'a> LitGen<'t, 'a> {
     fn stmt(&mut self) -> String {
         self.counter += 1;
         let n = self.counter;
-        match self.t.below(30) {
+        match self.t.below(33) {
+            30 => {
+                // adjacent string literals: a constant sum in leading position / as an argument
+                let l1 = self.plant(Some(None), true, false, "adjacent-literal-sum");
+                let l2 = self.plant(Some(None), true, false, "adjacent-literal-sum");
+                if self.t.flag() {
+                    format!("x = {l1} + {l2} + a;")
+                } else {
+                    format!("x = a.concat({l1} + {l2}, b);")
+                }
+            }
+            31 => {
+                let l1 = self.plant(Some(None), true, false, "adjacent-literal-sum-template");
+                let l2 = self.plant(Some(None), true, false, "adjacent-literal-sum-template");
+                format!("x = `${{a}}${{{l1} + {l2}}}`;")
+            }
+            32 => {
+                // one value at a dozen places
+                let (value, text) = self.lit(false);
+                for _ in 0..12 {
+                    self.planted.push(Planted { value: value.clone(), text: text.clone(), ident: Some(None), reported: true, free: false, tag: "same-value-dozen" });
+                }
+                format!("x = [{}];", vec![text.as_str(); 12].join(", "))
+            }
             28 => {
                 // a string literal as computed member name of a call; sometimes it spells a configured method name
                 if self.t.flag() {
